@@ -300,6 +300,20 @@ fn tags(p: &Pat) -> Vec<&'static str> {
     fn seq(r: &Re) -> Vec<&Re> { match r { Re::Cat(v) => v.iter().flat_map(|x| seq(x)).collect(), x => vec![x] } }
     let items = seq(r);
     if matches!(p, Pat::Regexp(..)) && matches!(items.last(), Some(Re::Rep(x, ..)) if is_dot(x)) { t.push("trailing-dot-repetition"); }
+    // a pattern split into a chain at a BOUNDED large gap, with a variable-length piece before the gap:
+    // only one end per start is kept for a chain piece, and the gap is measured from that end (known finding)
+    fn fixed_len(r: &Re) -> Option<usize> {
+        match r {
+            Re::Lit(s) => Some(s.len()), Re::Cls(_) => Some(1), Re::Assert(_) => Some(0),
+            Re::Cat(v) => v.iter().map(fixed_len).sum(),
+            Re::Alt(v) => { let l: Vec<_> = v.iter().map(fixed_len).collect(); if l.iter().all(|x| x.is_some() && *x == l[0]) { l[0] } else { None } }
+            Re::Rep(x, mn, Some(mx), _) if mn == mx => fixed_len(x).map(|l| l * mn),
+            Re::Rep(..) => None,
+        }
+    }
+    if let Some(i) = items.iter().position(|x| matches!(x, Re::Rep(y, mn, Some(mx), _) if matches!(**y, Re::Cls(Cls::Any)) && mx - mn > 200)) {
+        if i >= 1 && i + 1 < items.len() && items[..i].iter().any(|x| fixed_len(x).is_none()) { t.push("chain-piece-variable-length-bounded-gap"); }
+    }
     // a `wide` regexp with a jump over the chaining threshold between two pieces: it is split into a
     // chain, and for a chain the gap is only a distance (known finding: the gap is not required to
     // consist of wide characters)
@@ -878,6 +892,10 @@ fn corpus() -> Vec<(Pat, Vec<u8>, Option<usize>)> {
         // one literal byte, a jump of 12, a masked byte, a variable jump: the occurrence is missed
         (Pat::Hex(Re::Cat(vec![lit(&[0x50]), Re::Rep(Box::new(any()), 12, Some(12), false), Re::Cls(Cls::Mask(0x70, 0xF0)), Re::Rep(Box::new(any()), 0, Some(50), false), lit(&[0x5F])])),
          b"Pxxxxxxxxxxxxzyy_".to_vec(), None),
+        // remaining known finding: the piece before a bounded large gap has several possible ends, only
+        // the shortest is kept and the gap is measured from it
+        (Pat::Hex(Re::Cat(vec![lit(&[0x2E]), Re::Rep(Box::new(any()), 1, Some(2), false), lit(&[0x42]), Re::Rep(Box::new(any()), 0, Some(201), false), lit(&[0x0A, 0x7F])])),
+         { let mut d = b".aBB".to_vec(); d.extend(vec![b'x'; 201]); d.extend(b"\n\x7f"); d }, None),
         // remaining known finding: a wide regexp split at a large gap accepts a gap that is not wide
         (Pat::Regexp(Re::Cat(vec![lit(b"ab"), Re::Rep(Box::new(any()), 0, None, true), lit(b"cd")]), rm(&|m| { m.dotall = true; m.wide = true; })), b"a\0b\0xc\0d\0".to_vec(), None),
         // xor + fullword (differences.md)
